@@ -393,7 +393,58 @@ def emit_errors(err, rend, tfns):
     return "\n".join(L)
 
 
+# --------------------------------------------------------------------------- determinism
+def determinism_tables(repo: Path):
+    """places where a hash-ordered collection is iterated, and every use of the environment / file system"""
+    sites = []
+    for fp in sorted((repo / "src").rglob("*.rs")):
+        if fp.name == "verif_hooks.rs":
+            continue
+        src = strip_comments(fp.read_text())
+        names = set(re.findall(r"(\w+)\s*:\s*&?(?:mut\s+)?Hash(?:Map|Set)<", src))
+        names |= set(re.findall(r"let\s+(?:mut\s+)?(\w+)\s*=\s*Hash(?:Map|Set)::", src))
+        names |= set(m.group(1) for m in re.finditer(r"let\s+(?:mut\s+)?(\w+)\s*=[^;]*?collect::<Hash(?:Set|Map)<", src, re.S))
+        if re.search(r"pub type Scope = HashMap<", src):
+            names |= {"cur_scope", "unlocked_scope", "scope"}
+        for n in sorted(names):
+            for m in re.finditer(r"\b" + n + r"\s*\.\s*(iter|iter_mut|keys|values|values_mut|drain|into_iter|retain)\s*\(", src):
+                tail = src[m.end():m.end() + 400]
+                sink = "BTreeMap" if re.search(r"let new_rhs: BTreeMap<", src[max(0, m.start() - 200):m.start()]) and ".collect()" in tail else "?"
+                sites.append(f"{fp.name}:{n}.{m.group(1)}->{sink}")
+            for m in re.finditer(r"for\s+[^\n]*?\sin\s+&?(?:mut\s+)?" + n + r"\b\s*\{", src):
+                sites.append(f"{fp.name}:for-in {n}")
+    env = []
+    for fp in sorted((repo / "src").rglob("*.rs")):
+        if fp.name == "verif_hooks.rs":
+            continue
+        src = strip_comments(fp.read_text())
+        for m in re.finditer(r"\b(?:std::)?(env|fs|process|time|thread|net)::(\w+)", src):
+            if m.group(2) in ("Error",):
+                continue
+            # `use std::env;` style imports are not uses
+            line_start = src.rfind("\n", 0, m.start()) + 1
+            if src[line_start:m.start()].strip().startswith("use"):
+                continue
+            env.append(f"{fp.name}:{m.group(1)}::{m.group(2)}")
+    return dict(hash_iter_sites=sorted(set(sites)), env_uses=sorted(set(env)))
+
+
+def emit_determinism(d):
+    L = ["/-- every iteration over a hash-ordered collection in src/ (file:variable.method->sink) -/",
+         "def hashIterSites : List (List Char) := ["]
+    L.append(",\n".join(f"  {lean_chars(x)}" for x in d["hash_iter_sites"]))
+    L.append("]\n")
+    L.append("/-- every use of the process environment, file system, clock, threads or network in src/ -/")
+    L.append("def envUses : List (List Char) := [")
+    L.append(",\n".join(f"  {lean_chars(x)}" for x in d["env_uses"]))
+    L.append("]\n")
+    return "\n".join(L)
+
+
 def extend(repo: Path, tables):
+    det = determinism_tables(repo)
+    tables["determinism"] = det
+    tables.setdefault("extra_lean", []).append(emit_determinism(det))
     err = error_tables(repo)
     rend = renderer_tables(repo, err)
     tfns = typefn_tables(repo)
